@@ -7,8 +7,8 @@ CONSTANTS
   MaxRefuse = 8
   MaxFeed = 6
   MaxEof = 4
-  SlowSet = {"C", "D", "X"}
-  CfgWrite = FALSE
+  SlowSet = {"C"}
+  CfgWrite = TRUE
 CONSTRAINT Progress
 POSTCONDITION Post
 CHECK_DEADLOCK FALSE
